@@ -1,11 +1,12 @@
 """C05 - Angle stays in [0,360), frozen values never change, text form is canonical (DESIGN.md section 2, C05).
 
 A case is a *command history* interpreted against a pool of live srctools objects (Vec, FrozenVec, Angle, FrozenAngle,
-Matrix, FrozenMatrix).  Object references are indices taken modulo the number of live objects of an acceptable kind,
-numbers are literals or components of earlier objects (fed back, optionally negated), so every list is a valid history.
+Matrix, FrozenMatrix).  Object references are indices taken modulo the number of live objects of the kind the command
+names (a fixed default object is supplied when the pool has none), numbers are literals or components of earlier objects
+(fed back, optionally negated), so every list is a valid history.
 After *every* command the invariant of the sub-check is evaluated over the whole pool.  The reference model is the set
-of snapshots (exact ``repr`` of every component, ``repr()`` and ``hash()`` of the object) taken when an object was created
-or last legitimately modified - no srctools arithmetic is re-implemented or trusted.
+of snapshots (exact ``repr`` of every component, ``repr()`` and ``hash()`` of the object; the sign of a zero is ignored)
+taken when an object was created or last legitimately modified - no srctools arithmetic is re-implemented or trusted.
 
 Sub-checks (one clause group each, all driven by the same history interpreter):
 
@@ -42,6 +43,7 @@ RULE = (
 )
 ASSUMPTIONS = [
     'only public API is called; private slots are never written by the harness',
+    'a change of -0.0 into 0.0 (or back) is not counted as a change of an observable value',
     'operands are finite: a command whose vector/matrix/scalar operand exceeds 1e30 in magnitude is skipped and an object '
     'that becomes non-finite is retired from the pool (overflow is float behaviour, not a property violation)',
     'documented exceptions are accepted: ArithmeticError from inverse() of a singular matrix; division by zero and '
@@ -678,6 +680,11 @@ def literal():
     )
 
 
+def tiny_factor():
+    """Scale factors that take an angle component (< 360) to within an ulp of zero, from either side."""
+    return st.builds(lambda sg, m, e: sg * m * 10.0 ** -e, st.sampled_from([-1, 1, -1]), st.floats(1, 9), st.integers(14, 19))
+
+
 def number():
     fed = st.tuples(st.just('c'), st.integers(0, 40), st.integers(0, 8), st.booleans()).map(list)
     return st.one_of(literal(), literal(), fed)
@@ -734,7 +741,8 @@ def cmd_any(num):
         matmul(), matmul(), matmul(), matmul(), matmul(), matmul(), matmul(), matmul(),
         copy_(), copy_(), copy_(), copy_(), copy_(), copy_(),
         set_(), set_(),
-        st.tuples(st.just('amul'), ak, IDX, num, st.sampled_from(['mul', 'rmul', 'imul', 'imul'])),
+        st.tuples(st.just('amul'), ak, IDX, st.one_of(num, tiny_factor()), st.sampled_from(['mul', 'rmul', 'imul', 'imul'])),
+        st.tuples(st.just('amul'), ak, IDX, st.one_of(num, tiny_factor()), st.sampled_from(['mul', 'rmul', 'imul', 'imul'])),
         st.tuples(st.just('to_angle'), mk, IDX),
         st.tuples(st.just('to_angle'), mk, IDX),
         st.tuples(st.just('transform'), st.sampled_from(['Vec', 'Angle', 'Angle']), IDX,
@@ -831,15 +839,15 @@ _COPIES = tuple(f'copy:{h}:{k}' for h in ('copy', 'copy.copy', 'deepcopy', 'pick
     + tuple(f'copy:freeze:{k}' for k in MUT_K) + tuple(f'copy:thaw:{k}' for k in FROZEN_K)
 
 SUBCHECKS = [
-    Sub('range', exec_range, strategy=history_strategy, quick=3000, thorough=200000, floor=300,
+    Sub('range', exec_range, strategy=history_strategy, quick=3000, thorough=160000, floor=300,
         must_hit=_OPS + ('has_angle', 'num:fed_back', 'to_angle:Matrix', 'to_angle:FrozenMatrix', 'transform:Angle',
                          'amul:Angle:imul', 'set:Angle', 'ang_from_basis:Angle', 'ang_from_basis:FrozenAngle')
         + tuple(f'{f}:{l}@{r}' for f in ('matmul', 'imatmul') for l in ANG_K for r in ROT_K)),
-    Sub('frozen', exec_frozen, strategy=history_strategy, quick=3000, thorough=200000, floor=300, must_hit=_OPS + _MATMUL),
-    Sub('copies', exec_copies, strategy=history_strategy, quick=3000, thorough=200000, floor=300, must_hit=_OPS + _COPIES),
-    Sub('text', exec_text, strategy=history_strategy_text, quick=2000, thorough=120000, floor=200,
+    Sub('frozen', exec_frozen, strategy=history_strategy, quick=3000, thorough=160000, floor=300, must_hit=_OPS + _MATMUL),
+    Sub('copies', exec_copies, strategy=history_strategy, quick=3000, thorough=160000, floor=300, must_hit=_OPS + _COPIES),
+    Sub('text', exec_text, strategy=history_strategy_text, quick=2000, thorough=100000, floor=200,
         must_hit=_OPS + ('text:normal', 'text:big')),
-    Sub('fmtfloat', exec_fmt, strategy=fmt_strategy, quick=6000, thorough=600000, floor=1000,
+    Sub('fmtfloat', exec_fmt, strategy=fmt_strategy, quick=6000, thorough=400000, floor=1000,
         must_hit=('fmt:zero', 'fmt:<5e-7', 'fmt:<1', 'fmt:<1e15', 'fmt:>=1e15', 'fmt:tiny_negative')),
 ]
 
